@@ -18,6 +18,7 @@ struct Inputs {
   signed char root; unsigned char present[PN]; signed char left[PN], right[PN], parent[PN]; unsigned char red[PN];
   signed char depth[PN], bh[PN]; int64_t key[PN], val[PN], lo[PN], hi[PN];
   int64_t k, v, q;
+  unsigned char m2; int64_t k2[PN], v2[PN];
 };
 #ifndef V_REPLAY_INPUT_ONLY
 #define eq verif_eq
@@ -81,6 +82,7 @@ bool verif_get_color(struct Tree* m, var node) { if (node == NULL) return 0; lon
 
 #define OP_ACCESSORS 9
 #define OP_MARK 10
+#define OP_CMPHASH 11
 #define OP_SET 1
 #define OP_REM 2
 #define OP_GET 3
@@ -91,6 +93,22 @@ bool verif_get_color(struct Tree* m, var node) { if (node == NULL) return 0; lon
 #define OP_INIT 8
 
 /* ---- independent validity walk (post-state oracle) ---- */
+/* OP_CMPHASH: the abstract other map */
+static struct { struct Header h; struct Tree t; } other_box; static var OTHER; static size_t other_n;
+static struct { struct Header h; struct Elem e; } K2[PN + 1], V2[PN + 1];
+static long k2_index(var p) { for (long i = 0; i < PN; i++) if (p == (var)&K2[i].e) return i; return -1; }
+var v2_iter_init(var x) { V_ASSERT(x == OTHER, "harness: iteration of the other map only"); return other_n ? (var)&K2[0].e : Terminal; }
+var v2_iter_next(var x, var cur) { long i = k2_index(cur); V_ASSERT(x == OTHER && i >= 0 && (size_t)i < other_n, "the other map is advanced from a cursor it handed out"); return (i >= 0 && (size_t)i + 1 < other_n) ? (var)&K2[i + 1].e : Terminal; }
+var v2_get(var x, var key) { long i = k2_index(key); V_ASSERT(x == OTHER && i >= 0 && (size_t)i < other_n, "the other map is asked for its OWN keys only"); return i >= 0 ? (var)&V2[i].e : NULL; }
+/* Tree_Get inside Tree_Cmp: only ever asked for the tree's OWN cursor (a key stored in one of its nodes); its contract for
+ * arbitrary keys is the tree.get.* obligations */
+var v_tree_get(var self, var key) {
+  struct Tree* m = self;
+  for (long i = 0; i < TN; i++) if (pool_live[i] && Tree_Key(m, node_at(i)) == key) return Tree_Val(m, node_at(i));
+  V_ASSERT(0, "Tree_Cmp looks values of the LEFT operand up by the left operand's own cursor");
+  return NULL;
+}
+uint64_t v_hash_tree(var a) { return (uint64_t)((struct Elem*)a)->val * 3; }
 static int64_t W_key[TN + 1], W_val[TN + 1]; static size_t W_n; static int W_height;
 static _Bool walk(struct Tree* m) {
   var st_node[TN + 2]; int64_t st_lo[TN + 2], st_hi[TN + 2]; int st_black[TN + 2];
@@ -303,6 +321,29 @@ V_HARNESS {
     c = Tree_Iter_Last(m);
     for (int s = 0; s < TN + 1 && c != Terminal; s++) { if (cb >= n || ((struct Elem*)c)->val != W_key[n - 1 - cb]) ok = 0; cb++; c = Tree_Iter_Prev(m, c); }
     V_ASSERT(c == Terminal && ok && cb == n, "backward iteration is the exact reverse"); }
+#elif OP == OP_CMPHASH
+  /* C09 / C10: Tree_Cmp against an ABSTRACT other ordered map (a sequence of (key, value) pairs handed out through
+   * the redirected iter_init / iter_next / get): the induced lexicographic order over (key, then value) in iteration
+   * order, the shorter sequence first on a common prefix; Tree_Hash = XOR fold of key and value hashes */
+  V_ASSERT(walk(m) && W_n == n, "harness: pre-state valid");
+  { size_t m2 = IN.m2; V_ASSUME(m2 <= PN);
+    OTHER = header_init(&other_box.h, Tree, AllocHeap);
+    for (size_t i = 0; i < PN; i++) { struct Elem* a = header_init(&K2[i].h, Elem, AllocData); a->val = IN.k2[i]; struct Elem* b = header_init(&V2[i].h, Elem, AllocData); b->val = IN.v2[i]; }
+    other_n = m2;
+    int want = 0;
+    for (size_t i = 0; i < PN + 1 && want == 0; i++) {
+      if (i >= n && i >= m2) break;
+      if (i >= n) { want = -1; break; }
+      if (i >= m2) { want = 1; break; }
+      if (W_key[i] < IN.k2[i]) want = -1; else if (W_key[i] > IN.k2[i]) want = 1;
+      else if (W_val[i] < IN.v2[i]) want = -1; else if (W_val[i] > IN.v2[i]) want = 1;
+    }
+    int c1 = Tree_Cmp(m, OTHER);
+    V_WITNESS("compared");
+    V_ASSERT(c1 == want, "Tree cmp is the lexicographic order over (key, then value) in iteration order, the shorter map first on a common prefix");
+    uint64_t hw = 0; for (size_t i = 0; i < PN; i++) if (i < n) hw ^= (uint64_t)W_key[i] * 3 ^ (uint64_t)W_val[i] * 3;
+    V_ASSERT(Tree_Hash(m) == hw, "Tree hash is the XOR fold of the key and value hashes");
+    V_ASSERT(walk(m) && W_n == n, "comparison and hashing change nothing"); }
 #elif OP == OP_MARK
   { static uint64_t gcobj[2]; mark_gc = &gcobj[1];
     Tree_Mark(m, mark_gc, mark_rec);
